@@ -29,6 +29,7 @@ REQUIRED = {
     tier: {
         'on-grid-references-accepted-and-origin-checked': 200,
         'off-grid-references-refused': 40,
+        'both-curves-assembled-with-the-same-reference-level': 2,
         'references-at-the-exact-starting-level-of-the-highest-interval': 2,
         'on-grid-reference-accepted-after-a-refused-one-on-the-same-connection': 5,
         'default-origin-checked': 10,
@@ -237,6 +238,34 @@ def check_combo(ctx, case, kind, gs, rng, max_levels, n_cli, index):
         else:
             rec.violation('off-grid-reference-not-cleanly-refused:' + key, {'exception': desc, 'reference_mm': ref, 'rows_left': curve_rows(connection, kind)},
                           dict(case, off_grid_reference=ref, curve=kind), 'combo:' + kind)
+    # both curves of one dataset with the same reference level (a user who wants both origins at,
+    # say, the peat surface): each multiple of the step is accepted for each curve
+    if kind == 'rise' and index % 2 == 0:
+        other = 'recession'
+        curves_common.clear_curve(connection, kind)
+        curves_common.clear_curve(connection, other)
+        if curves_common.run_curve(connection, other) is None:
+            connection.commit()
+            table = 'recession_interval_zeta'
+            common = sorted(set(levels) & {r[0] for r in connection.execute('SELECT DISTINCT zeta_number FROM {}'.format(table))})
+            curves_common.clear_curve(connection, other)
+            if common:
+                k = rng.choice(common)
+                for which in rng.sample([kind, other], 2):
+                    rec.case()
+                    exc = curves_common.run_curve(connection, which, k * gs)
+                    if exc is not None:
+                        key, desc = curves_common.classify_outcome(exc)
+                        rec.violation('on-grid-reference-refused-when-the-other-curve-has-the-same-reference:' + key,
+                                      {'exception': desc, 'reference_mm': k * gs, 'curve': which}, dict(case, curve=which), 'combo:' + kind)
+                        break
+                    connection.commit()
+                    bad = [kk for p, kk, w in oracle_curves.walk_curve(connection, which, k, None)[0] if p == PROPERTY]
+                    if bad:
+                        rec.violation('same-reference-for-both-curves:' + bad[0], {'reference_mm': k * gs, 'curve': which}, dict(case, curve=which), 'combo:' + kind)
+                        break
+                else:
+                    rec.hit('both-curves-assembled-with-the-same-reference-level')
     connection.close()
     if db and os.path.exists(db):
         os.remove(db)
